@@ -2,7 +2,7 @@
 # tools/sweep_mutants.sh <root of mutant dirs> : for every <root>/<Cxx>/m<k>/patch.diff apply it to /repo (or to SWEEP_REPO, a scratch worktree the simulator copy under VERIF_HOME points at), run the
 # property's own check and its neighbours (quick tier), restore /repo. Writes <dir>/caught.txt.
 ROOT="$1"
-declare -A REL=( [C01]="C01 C02 C06 C10" [C02]="C02 C01 C10 C14" [C03]="C03 C07 C08" [C04]="C04 C06 C14 C08" [C05]="C05 C08 C06" [C06]="C06 C01 C07 C08" [C07]="C07 C08 C06" [C08]="C08 C04 C05" [C10]="C10 C02" [C13]="C13 C15" [C14]="C14 C04 C02 C10" [C15]="C15 C13 C02 C10" [C16]="C16 C14" [C17]="C17" [C20]="C20" )
+declare -A REL=( [C01]="C01 C02 C06 C10" [C02]="C02 C01 C10 C14" [C03]="C03 C07 C08" [C04]="C04 C06 C14 C08" [C05]="C05 C08 C06" [C06]="C06 C01 C07 C08" [C07]="C07 C08 C06" [C08]="C08 C04 C05 C06" [C10]="C10 C02" [C13]="C13 C15" [C14]="C14 C04 C02 C10" [C15]="C15 C13 C02 C10" [C16]="C16 C14" [C17]="C17" [C20]="C20" )
 R=${SWEEP_REPO:-/repo}
 cd $R || exit 2
 if [ -n "$(git status --porcelain --untracked-files=no)" ]; then echo "$R has local changes; refusing"; exit 2; fi
@@ -14,7 +14,8 @@ for d in ${ONLY:-$ROOT/C*/m*}; do
   if ! git -C $R apply "$d/patch.diff" 2>/dev/null; then echo "$d: PATCH DOES NOT APPLY" | tee "$d/caught.txt"; continue; fi
   : > "$d/caught.txt"
   for id in ${REL[$pid]}; do
-    out=$(cd ${VERIF_HOME:-/verif} && VERIF_OUT=/tmp/verif-mutant-out ./check "$id" ${TIER:-quick} 2>&1); rc=$?
+    rm -rf "$d/out/$id"; mkdir -p "$d/out/$id"
+    out=$(cd ${VERIF_HOME:-/verif} && VERIF_OUT="$d/out/$id" ./check "$id" ${TIER:-quick} 2>&1); rc=$?
     rules=$(echo "$out" | grep -E "^violation:" | sed -E 's/.*rule=([^ ]+).*/\1/' | sort -u | tr '\n' ',' | sed 's/,$//')
     ev=$(echo "$out" | grep -E "evaluations" | sed -E 's/.*: ([0-9]+) evaluations.*/\1/')
     echo "$id exit=$rc evaluations=$ev rules=$rules" >> "$d/caught.txt"
@@ -22,4 +23,15 @@ for d in ${ONLY:-$ROOT/C*/m*}; do
   done
   git -C $R checkout -- . >/dev/null 2>&1
   echo "== $d"; cat "$d/caught.txt"
+done
+# every minimised scenario must pass on the unchanged tree (a replay that also fails there would mean the check
+# itself is wrong for that scenario, e.g. the shrinker left the check's domain)
+git -C $R checkout -- . >/dev/null 2>&1
+for d in ${ONLY:-$ROOT/C*/m*}; do
+  for f in "$d"/out/*/replays/*.json; do
+    [ -f "$f" ] || continue
+    (cd ${VERIF_HOME:-/verif} && ./check replay "$f" >/dev/null 2>&1); rc=$?
+    echo "clean_replay $(basename $f) exit=$rc" >> "$d/caught.txt"
+    [ $rc = 0 ] || echo "!! $f reproduces on the unchanged tree (exit $rc)"
+  done
 done
